@@ -684,6 +684,38 @@ var ccClasses = []struct {
 	}},
 }
 
+// ccSpaceClass: "" when the set holds space, tab, line feed and carriage
+// return (the white space of JSON, which a path may be laid out with) and
+// otherwise only other white space; else what is wrong.
+func ccSpaceClass(acc ccSet) string {
+	in := func(c int64) bool {
+		for _, q := range acc {
+			if q.lo <= c && c <= q.hi {
+				return true
+			}
+		}
+		return false
+	}
+	for _, c := range []int64{' ', '\t', '\n', '\r'} {
+		if !in(c) {
+			return fmt.Sprintf("U+%04X is missing, so a path laid out with it (a carriage return before a line feed, a tab) no longer parses", c)
+		}
+	}
+	for _, q := range acc {
+		for c := q.lo; c <= q.hi && c-q.lo < 64; c++ {
+			switch c {
+			case ' ', '\t', '\n', '\r', '\v', '\f', 0x85, 0xA0:
+			default:
+				return fmt.Sprintf("U+%04X is no white space, so it disappears between tokens", c)
+			}
+		}
+		if q.hi-q.lo >= 64 {
+			return "a whole range of characters is skipped as white space"
+		}
+	}
+	return ""
+}
+
 func ccDigitValue(c int64) int64 {
 	switch {
 	case c >= '0' && c <= '9':
@@ -750,7 +782,7 @@ var ruleCharClass = &Rule{
 	Doc: "the lexer's pure functions of one character, computed exactly as piecewise-affine functions of the argument over end-of-input and every code point (comparisons split the range; `|`, `&` and narrowing conversions split it at the aligned blocks they act on; calls to other such functions are unfolded): a digit-value function (one return a negative constant, another the argument minus a constant) accepts exactly one of the digit classes [01], [0-7], [0-9], [0-9A-Fa-f] and gives every accepted character its value as a digit; a predicate that accepts '0' accepts exactly one of those classes or [0-9A-Za-z], [0-9A-Za-z_]; some digit-value function accepts the hexadecimal class",
 	Run: func(p *Prog) *RuleOut {
 		out := newOut("R-CHARCLASS")
-		nVal, nPred, nHex, nSkipped := 0, 0, 0, 0
+		nVal, nPred, nHex, nSkipped, nSpace := 0, 0, 0, 0, 0
 		var fns []*ssa.Function
 		for fn := range p.AllFns {
 			if fnPkgPath(fn) != pkgParser || fn.Blocks == nil || fn.Synthetic != "" || fn.Parent() != nil || fn.Signature.Recv() != nil {
@@ -831,12 +863,27 @@ var ruleCharClass = &Rule{
 			}
 			acc = ccSet(ccPW(acc).compact())
 			if isBool {
-				// only predicates over digits are held to a class
-				has0 := false
+				// only predicates over digits, and over white space, are held to a class
+				has0, hasSP := false, false
 				for _, q := range acc {
 					if q.lo <= '0' && '0' <= q.hi {
 						has0 = true
 					}
+					if q.lo <= ' ' && ' ' <= q.hi {
+						hasSP = true
+					}
+				}
+				// a white space test is a predicate of a handful of characters
+				// with the space among them; one that accepts half of Unicode
+				// (`prefix != 0 && prefix != '0'`) is about something else
+				if hasSP && !has0 && acc.size() <= 16 {
+					nSpace++
+					if why := ccSpaceClass(acc); why == "" {
+						out.ok(key, at, fnName(fn), "accepts "+ccShow(acc)+": the four white space characters of JSON and nothing but white space")
+					} else {
+						out.viol(key, at, fnName(fn), "a predicate that accepts the space accepts "+ccShow(acc)+": "+why)
+					}
+					continue
 				}
 				if !has0 {
 					continue
@@ -863,6 +910,55 @@ var ruleCharClass = &Rule{
 				out.ok(key, at, fnName(fn), "accepts exactly "+cl+" among all arguments, each with its value as a digit")
 			}
 		}
+		// the same for a bit mask tested with `mask&(1<<ch) != 0`
+		for fn := range p.AllFns {
+			if fnPkgPath(fn) != pkgParser || fn.Blocks == nil || fn.Synthetic != "" {
+				continue
+			}
+			for _, b := range fn.Blocks {
+				for _, ins := range b.Instrs {
+					bo, ok := ins.(*ssa.BinOp)
+					if !ok || bo.Op != token.AND {
+						continue
+					}
+					var k int64
+					var sh *ssa.BinOp
+					for _, pr := range [][2]ssa.Value{{bo.X, bo.Y}, {bo.Y, bo.X}} {
+						if kv, isC := constInt(pr[0]); isC {
+							if s2, isS := stripConvPlain(pr[1]).(*ssa.BinOp); isS && s2.Op == token.SHL {
+								if one, isOne := constInt(s2.X); isOne && one == 1 {
+									k, sh = kv, s2
+								}
+							}
+						}
+					}
+					if sh == nil {
+						continue
+					}
+					if bt, ok := stripConvPlain(sh.Y).Type().Underlying().(*types.Basic); !ok || bt.Kind() != types.Int32 {
+						continue
+					}
+					if k&(1<<' ') == 0 || k&(1<<'0') != 0 {
+						continue
+					}
+					nSpace++
+					var acc ccSet
+					for i := int64(0); i < 63; i++ {
+						if k&(1<<uint(i)) != 0 {
+							acc = append(acc, ccPiece{lo: i, hi: i})
+						}
+					}
+					acc = ccSet(ccPW(acc).compact())
+					key := fnName(fn) + ": white space mask"
+					if why := ccSpaceClass(acc); why == "" {
+						out.ok(key, p.pos(bo.Pos()), fnName(fn), "the mask holds "+ccShow(acc)+": the four white space characters of JSON and nothing but white space")
+					} else {
+						out.viol(key, p.pos(bo.Pos()), fnName(fn), "a character mask that holds the space holds "+ccShow(acc)+": "+why)
+					}
+				}
+			}
+		}
+		out.Counts["white_space_tests"] = nSpace
 		out.Counts["digit_value_functions"] = nVal
 		out.Counts["digit_predicates"] = nPred
 		out.Counts["hex_value_functions"] = nHex
@@ -894,3 +990,45 @@ func splitNonNeg(q ccPiece) []ccPiece {
 }
 
 func init() { register(ruleCharClass) }
+
+var ccAcceptedMemo = map[*ssa.Function]ccSet{}
+
+// ccAccepted: the exact set of characters the pure one-rune predicate g
+// accepts (false when g is no such function or cannot be computed).
+func (p *Prog) ccAccepted(g *ssa.Function) (ccSet, bool) {
+	if g == nil || g.Blocks == nil || !inModule(g) || len(g.Params) != 1 || !ccPure(g) {
+		return nil, false
+	}
+	if r, ok := ccAcceptedMemo[g]; ok {
+		return r, r != nil
+	}
+	ccAcceptedMemo[g] = nil
+	if bt, ok := g.Params[0].Type().Underlying().(*types.Basic); !ok || bt.Kind() != types.Int32 {
+		return nil, false
+	}
+	if bt, ok := g.Signature.Results().At(0).Type().Underlying().(*types.Basic); !ok || bt.Info()&types.IsBoolean == 0 {
+		return nil, false
+	}
+	e := &ccEval{p: p}
+	full := ccFull()
+	f, err := e.run(g, []ccPW{ccIdent(full)}, full, 0)
+	if err != nil {
+		return nil, false
+	}
+	var dom, acc ccSet
+	for _, q := range f {
+		dom = append(dom, ccPiece{lo: q.lo, hi: q.hi})
+		if q.b != 0 {
+			acc = append(acc, ccPiece{lo: q.lo, hi: q.hi})
+		}
+	}
+	if dom.size() != full.size() {
+		return nil, false
+	}
+	acc = ccSet(ccPW(acc).compact())
+	if acc == nil {
+		acc = ccSet{}
+	}
+	ccAcceptedMemo[g] = acc
+	return acc, true
+}
